@@ -28,7 +28,7 @@ FAIL_TEXT = {
     5: "plain-field-reference (single identifier) classification differs",
     6: "an argument is not handed on token for token, unchanged and in order",
 }
-FLAG_TEXT = {1: "binary-pipe", 2: "type-angle-comma"}
+FLAG_TEXT = {1: "binary-pipe", 2: "type-angle-comma", 4: "lt-comma-gt-pathsep"}
 
 
 def render(tts):
@@ -115,7 +115,7 @@ TEMPLATES = [
     "a :: < ? , a > g , a", "a , a :: < ? , a > g", "a = a :: < ? , a > g", "a = a , a :: < ? , a > g , ?",
     "a :: < ? , a > g , a = a", "< a s a < ? , a > > :: a , a",
     # comparisons / shifts using `<` `>`: these DO split
-    "a < ? , a > ? a", "a < ? ? , a > a", "a < a , a :: < a , ? > g",
+    "a < ? , a > ? a", "a < ? ? , a > a", "a < a , a :: < a , ? > g", "a < ? , a > :: a", "a < ? , ? > :: a , a",
     # the other expression forms the property lists, each next to another argument: macros, ranges, method calls, fields, casts,
     # references / negation, shifts and comparisons, assignments inside an alias, blocks (`b` = `{ a }`, `k` = `[a, a]`)
     "a ! g , ?", "a ! b ? ?", "a .. ? , a", "a ..= ? , a", ".. ? , a", "a . a g , ?", "a . 1 . ? , a", "a s a , ?", "a s & ? , a",
